@@ -9,7 +9,8 @@ FULL TARGET (stated here; only the parts that are PROVED appear below as declara
   * max : dually (`w ≤ v`, attained);   * satisfy : every feasible extension has `w = v`.
 Consequently equal optimal values / optimal projections / infeasible-unbounded status.
 -/
-import Rooc.Proofs.LinAssemble
+import Rooc.Proofs.LinC10
+import Rooc.Proofs.LinExamples
 namespace Rooc.Props.C02
 open Rooc Rooc.Lin Rooc.Sem Rooc.LinP
 
@@ -17,23 +18,27 @@ variable {K : Type} [Field K] [LinearOrder K] [IsStrictOrderedRing K] [FloorRing
 
 /-- **C02 on purely affine models**: the linear objective (with its offset) IS the source objective, at every
 assignment at which the source objective is defined (no auxiliaries, so nothing to optimise over). -/
-theorem c02_affine (hfl : FlattenSound K) (hsi : SimplifySoundArith K)
-    {m : Model (Ext K)} {b : BoundsMap (Ext K)} {d : List (DomVar (Ext K))} {lm : LinModel (Ext K)}
+theorem c02_affine {m : Model (Ext K)} {b : BoundsMap (Ext K)} {d : List (DomVar (Ext K))} {lm : LinModel (Ext K)}
     (h : linearizeWith m b d = .ok lm) (haff : AffineModel m d) :
     lm.optType = m.optType ∧
     ∀ (ρ : String → K) (v : K), eval ρ m.objective = some v → linObjective lm ρ = some v := by
-  refine ⟨?_, fun ρ v hv => affine_objective hfl hsi haff h ρ v hv⟩
-  obtain ⟨_, _, h1, _⟩ := linearizeWith_affine hfl hsi haff h
+  refine ⟨?_, fun ρ v hv => affine_objective flattenSound simplifySoundArith haff h ρ v hv⟩
+  obtain ⟨_, _, h1, _⟩ := linearizeWith_affine flattenSound simplifySoundArith haff h
   exact h1
+
+/-- non-vacuity of `c02_affine` (`min x s.t. x ≤ y`). -/
+example : ∃ (m : Model (Ext K)) (b : BoundsMap (Ext K)) (d : List (DomVar (Ext K))) (lm : LinModel (Ext K)),
+    linearizeWith m b d = .ok lm ∧ AffineModel m d ∧ ∀ ρ : String → K, ∃ v, eval ρ m.objective = some v := by
+  obtain ⟨lm, h⟩ := exAffine_ok (K := K)
+  exact ⟨exAffine, [], exAffine.domain, lm, h, exAffine_hyps.1, fun ρ => ⟨ρ "x", by simp [exAffine, eval]⟩⟩
 
 /-- corollary in the shape of the full target: on an affine model every feasible "extension" has exactly the
 source objective value (so the best one does, in either direction). -/
-theorem c02_affine_best (hfl : FlattenSound K) (hsi : SimplifySoundArith K)
-    {m : Model (Ext K)} {b : BoundsMap (Ext K)} {d : List (DomVar (Ext K))} {lm : LinModel (Ext K)}
+theorem c02_affine_best {m : Model (Ext K)} {b : BoundsMap (Ext K)} {d : List (DomVar (Ext K))} {lm : LinModel (Ext K)}
     (h : linearizeWith m b d = .ok lm) (haff : AffineModel m d)
     (ρ ρ' : String → K) (hag : ∀ v, inScope d v → ρ' v = ρ v) (v : K) (hv : eval ρ m.objective = some v) :
     linObjective lm ρ' = some v := by
-  apply (c02_affine hfl hsi h haff).2
+  apply (c02_affine h haff).2
   rw [eval_congr m.objective (fun x hx => hag x (haff.obj.2 x hx))]
   exact hv
 
